@@ -61,8 +61,8 @@ def run(rep: Report, ctx: Any) -> str:
                       "and loop variables that come to hold it)")
 
     rep.rule("R08.11", PROPERTY_RULE_TEXT)
-    rep.rule("R08.13", FIXPOINT_RULE_TEXT)
-    rep.rule("R08.14", POUR_RULE_TEXT)
+    rep.rule("R08.14", FIXPOINT_RULE_TEXT)
+    rep.rule("R08.15", POUR_RULE_TEXT)
     rep.rule("R08.12", "the diagnostic of an omitted piece reaches the caller: where a parser function records diagnostics in a local "
                        "accumulator - an error value put into a container it created empty, or into a field declared as a list of errors "
                        "of an object it keeps in such a container - every return that hands the accumulator back hands it back entire: the "
@@ -202,9 +202,9 @@ def run(rep: Report, ctx: Any) -> str:
     _property_objects_not_written(rep, ctx)
     # ---- R08.12: recorded diagnostics are returned entire -----------------------------------------------------------------------------
     _diagnostics_returned_entire(rep, ix)
-    # ---- R08.13: the retry over rounds is not one item's to end ------------------------------------------------------------------------
+    # ---- R08.14: the retry over rounds is not one item's to end ------------------------------------------------------------------------
     _fixpoint_not_decided_by_one_item(rep, ctx)
-    # ---- R08.14: diagnostics do not steer generation -----------------------------------------------------------------------------------
+    # ---- R08.15: diagnostics do not steer generation -----------------------------------------------------------------------------------
     _diagnostics_only_poured(rep, ctx)
     rep.not_decided += ["byte equality of the output trees with and without the bad piece"]
     return LEVEL
@@ -268,8 +268,8 @@ def _fixpoint_not_decided_by_one_item(rep: Report, ctx: Any) -> None:
     from . import c12
 
     rule = getattr(c12, "_round_loops", None)
-    rep.require(callable(rule), "the worklist-round rule of C12 (c12._round_loops), which R08.13 evaluates")
-    rule(_Under(rep, "R08.13"), ctx.py)
+    rep.require(callable(rule), "the worklist-round rule of C12 (c12._round_loops), which R08.14 evaluates")
+    rule(_Under(rep, "R08.14"), ctx.py)
 
 
 def check_no_alias(rep: Report, ctx: Any, rid: str) -> None:
@@ -1533,7 +1533,7 @@ def _diagnostics_returned_entire(rep: Report, ix: Any) -> None:
     rep.floor("diagnostic_accumulators_returned", n_inst, 1)
 
 
-# ---- R08.14: diagnostics do not steer generation --------------------------------------------------------------------------------------
+# ---- R08.15: diagnostics do not steer generation --------------------------------------------------------------------------------------
 
 POUR_RULE_TEXT = (
     "diagnostics do not steer generation: whether a bad piece was met is recorded in the error stores (the fields declared as "
@@ -1718,7 +1718,7 @@ def _diagnostics_only_poured(rep: Report, ctx: Any) -> None:
         for store, nodes in sorted(reads.items()):
             n_reads += len(nodes)
             whys = [(n, w) for n in nodes for w in [pour.fate(f, n)] if w is not None]
-            rep.check(not whys, "R08.14", f"{short(f)}::diagnostics-only-poured[{store}]",
+            rep.check(not whys, "R08.15", f"{short(f)}::diagnostics-only-poured[{store}]",
                       f"the error store `{store}` is not just poured on ({'; '.join(w for _, w in whys)[:240]}): whether a bad piece was met "
                       "anywhere in the document then decides about what is generated for pieces that have nothing to do with it",
                       where(f, whys[0][0] if whys else f.node), lhs=[w for _, w in whys][:4],
@@ -1734,6 +1734,6 @@ def _diagnostics_only_poured(rep: Report, ctx: Any) -> None:
             got = sorted({g.attr for g in t.tree.find_all(jn.Getattr) if g.attr in stores and g.attr != "errors"} |
                          {g.attr for g in t.tree.find_all(jn.Getattr) if g.attr == "errors" and not isinstance(g.node, jn.Name)})
             if got:
-                rep.fail("R08.14", f"template {name}::reads-diagnostics[{', '.join(got)}]",
+                rep.fail("R08.15", f"template {name}::reads-diagnostics[{', '.join(got)}]",
                          "a template reads an error store: the text of a generated module depends on whether a bad piece was met", name,
                          lhs=got, rhs="no read of errors / parse_errors in a template")
